@@ -19,7 +19,8 @@ EXPLANATION = (
     "analysis of the interval classes shows the produced delay >= the initial timeout (initial >= 1 by setTimeout's guard, "
     "factor default >= 1, maxDelay = max(initial, .), jitter >= 0, bandwidth/factor > 0 by setBandwith's guard). NOT decided: "
     "that PUBLISH gaps do not shrink from one retry to the next (random jitter and a caller-supplied factor below 1 are "
-    "numeric, not structural).")
+    "numeric, not structural). "
+    " R-VERSION - the protocol version that gates DUP on SUBSCRIBE/UNSUBSCRIBE/PUBREL repeats is recorded by the accepted connect() only, before anything can be repeated on the connection.")
 ASSUMPTIONS = ["timing clauses of the property are not decided by this family"]
 
 RETRY_KINDS = {"PUBLISH": True, "PUBREL": False, "SUBSCRIBE": False, "UNSUBSCRIBE": False}   # class -> DUP unconditional?
@@ -69,6 +70,12 @@ def check(ctx):
         cat = catalogue(a, cls)
         eng = cat.eng
         cq = cls_short(cls.qual)
+        # under 3.1 the repeats of SUBSCRIBE / UNSUBSCRIBE / PUBREL carry DUP, under 3.1.1 never: the version consulted must be
+        # the one of this connection's CONNECT before anything can be repeated on it (the resume at CONNACK included)
+        from ..lifecycle import rule_session_field
+        rule_session_field(ctx, cat, "R-VERSION", "version", "the protocol version",
+                           "a packet repeated before the assignment (the session resume at CONNACK) gets its DUP flag according to the previous "
+                           "connection's or the default version")
         # ---- X-RESOLVE ---------------------------------------------------------
         for ent, p, e in cat.all_events("UNRESOLVED"):
             ctx.ob("X-RESOLVE", "%s %s resolves" % (cq, e.a["name"]), False, where=where(e), function=e.func,
